@@ -107,7 +107,10 @@ def main():
             continue
         if corpus == "seeded":
             prop = meta["property"]
-            if prop not in rep:
+            if prop not in rep and meta.get("expected") == "missed":
+                # a recorded limit of the technique (DESIGN.md §4i / §7): kept, not counted
+                print("LIMIT   %-7s target=%s not decided (recorded): %s" % (d, prop, meta.get("expected_reason", "")[:160]))
+            elif prop not in rep:
                 bad += 1
                 print("MISSED  %-7s target=%s reported under %s" % (d, prop, sorted(rep)))
         else:
